@@ -168,7 +168,7 @@ func (u *UnitsDefinition) FormatShortInt(data int64) string {
 	remainder := data
 	output := ""
 	for _, multiplier := range u.getSortedMultipliersCache() {
-		base := int64(math.Floor(float64(remainder) / float64(multiplier)))
+		base := floorDivide(remainder, multiplier)
 		remainder -= base * multiplier
 		output += formatNumberUnitShort(base, u.Multipliers()[multiplier], false)
 	}
@@ -200,7 +200,7 @@ func (u *UnitsDefinition) FormatLongInt(data int64) string {
 	remainder := data
 	output := ""
 	for _, multiplier := range u.getSortedMultipliersCache() {
-		base := int64(math.Floor(float64(remainder) / float64(multiplier)))
+		base := floorDivide(remainder, multiplier)
 		remainder -= base * multiplier
 		output += u.Multipliers()[multiplier].FormatLongInt(base, false)
 	}
@@ -222,6 +222,16 @@ func (u *UnitsDefinition) FormatLongFloat(data float64) string {
 	}
 	output += u.BaseUnit().FormatLongFloat(remainder, false)
 	return output
+}
+
+// floorDivide divides exactly, rounding towards negative infinity. Going through float64 loses the low bits of
+// quantities above 2^53 and produced negative remainders.
+func floorDivide(dividend int64, divisor int64) int64 {
+	quotient := dividend / divisor
+	if dividend%divisor != 0 && (dividend < 0) != (divisor < 0) {
+		quotient--
+	}
+	return quotient
 }
 
 func (u *UnitsDefinition) getSortedMultipliersCache() []int64 {
